@@ -364,3 +364,31 @@ def run(repo: Repo, rep: Report) -> None:  # noqa: F811
     rep.ob("C04.i-values-variables-are-in-scope-sets", alg, "_addVars", "arm for the `values` node", bool(arm),
            "VALUES variables recorded" if arm else
            "no arm for `values`: ToMultiSet(values)._vars is empty, so `VALUES ?a { :y 0 } OPTIONAL { VALUES ?a { :x \"\" } }` returns no row at all (each left row must survive: nothing on the right is compatible with it)", node=av)
+
+
+_run_base2 = run
+
+
+def run(repo: Repo, rep: Report) -> None:  # noqa: F811
+    _run_base2(repo, rep)
+    op = repo.mod("rdflib.plugins.sparql.operators")
+    # ------------------------------------------------------------------ (j)
+    rep.rule("C04.j-logical-and-stops-at-the-first-false",
+             "ConditionalAndExpression evaluates its operands lazily, left to right, and stops at the first false one (all() over a GENERATOR of EBV(x), or an explicit loop that "
+             "returns on false): SPARQL's `false && error` is false, so an operand that raises must not be evaluated once an earlier operand is false. Collecting the EBVs into a list "
+             "first evaluates every operand and turns `false && error` into an error (which `!( ... )` and BIND make visible)", floor=1)
+    f = op.func("ConditionalAndExpression")
+    alls = [c for c in own_nodes(f) if isinstance(c, ast.Call) and norm(c.func) == "all" and c.args]
+    loops_ = [n for n in own_nodes(f) if isinstance(n, ast.For)]
+    if not alls and not loops_:
+        raise AnalysisError("ConditionalAndExpression: neither all(...) nor a loop over the operands found")
+    for c in alls:
+        a = c.args[0]
+        lazy = isinstance(a, ast.GeneratorExp)
+        rep.ob("C04.j-logical-and-stops-at-the-first-false", op, "ConditionalAndExpression", c, lazy,
+               "generator: operands after the first false one are not evaluated" if lazy else
+               "all() is applied to %s, which evaluates EBV of every operand before looking at any: `FILTER(!(?x = 1 && ?y > 5))` with ?y unbound errs (row dropped) where the algebra gives true for ?x != 1" % ("a list" if isinstance(a, (ast.ListComp, ast.Name, ast.List)) else norm(a)[:30]), node=c)
+    for l in loops_:
+        early = any(isinstance(r, ast.Return) for r in ast.walk(l))
+        rep.ob("C04.j-logical-and-stops-at-the-first-false", op, "ConditionalAndExpression", "for %s in ...: return on false" % norm(l.target), early,
+               "" if early else "the loop over the operands never returns early", node=l)
